@@ -363,3 +363,85 @@ def r16f(R):
             'the enclosing quotes must be removed before \\" is turned into ": '
             'otherwise a string ending in a backslash loses it together with '
             'the closing quote ("Deck\\\\" is read as Deck)')
+
+
+# ---------------------------------------------------------------- R16.g
+def classless_types(A):
+    """Token classes whose tokens print as the *name of the class* and whose
+    name a script may use as an identifier: not string-bearing, not a keyword."""
+    import ast as _ast
+    hs = A.func('bardolph.parser.token', 'TokenTypes.has_string')
+    strings = None
+    for n in _ast.walk(hs.node):
+        if isinstance(n, _ast.Compare) and isinstance(n.ops[0], _ast.In):
+            v = A.try_fold(n.comparators[0], hs)
+            if isinstance(v, (tuple, list)) and all(isinstance(x, EnumVal) for x in v):
+                strings = set(x.member for x in v)
+    lexmod = A.repo.module(LEX)
+    nk = lexmod.constants.get('_NON_KEYWORDS')
+    non_kw = A.try_fold(nk, lexmod) if nk is not None else None
+    if strings is None or not isinstance(non_kw, (tuple, list)):
+        raise AnalysisError('has_string / _NON_KEYWORDS tables not found')
+    return frozenset(x.member for x in non_kw) - frozenset(strings), strings
+
+
+@rule('R16.g', ('C16', 'C06'), 'a symbol is never looked up under the class '
+      'name of a token that has no text', floor=8,
+      decides='names that coincide with the compiler\'s internal token-class '
+              'names (eof, compare, unknown ...) behave like any other name: '
+              'the end of input or an operator is not mistaken for them')
+def r16g(R):
+    A = R.A
+    from ..tokstate import TokState, TOKEN_EXPRS
+    T = A._memo.get('tokstate')
+    if T is None:
+        T = A._memo['tokstate'] = TokState(A)
+    danger, _strings = classless_types(A)
+    if not danger:
+        raise AnalysisError('no class-named token types found')
+    tables = ('Context', 'ContextStack', 'SymbolTable')
+    n_sites = 0
+    for f in T.funcs:
+        cfg = A.cfg(f)
+        aliases = T._aliases(f)
+
+        def is_tok_text(e):
+            return isinstance(e, ast.Call) and norm(e.func) == 'str' and e.args \
+                and (norm(e.args[0]) in TOKEN_EXPRS or
+                     (isinstance(e.args[0], ast.Name) and e.args[0].id in aliases))
+        # locals bound to str(<token>)
+        text_defs = {}
+        for n in cfg.nodes:
+            if n.kind == 'stmt' and isinstance(n.ast, ast.Assign) and \
+                    is_tok_text(n.ast.value):
+                for t in n.ast.targets:
+                    if isinstance(t, ast.Name):
+                        text_defs.setdefault(t.id, []).append(n)
+        for n in cfg.nodes:
+            for c in n.calls():
+                callees = A.callees(f, c)
+                if not callees or not all(
+                        t.cls is not None and t.cls.name in tables for t in callees):
+                    continue
+                for a in c.args:
+                    where = []
+                    if is_tok_text(a):
+                        where = [n]
+                    elif isinstance(a, ast.Name) and a.id in text_defs:
+                        where = text_defs[a.id]
+                    for w in where:
+                        st = T.state_at(f, w)
+                        if st is None:
+                            continue
+                        n_sites += 1
+                        bad = sorted(st & danger)
+                        R.check(f, c, not bad,
+                                'the key of this symbol-table access is '
+                                'str(<current token>) at a point where the '
+                                'token can be of class %s, which has no text '
+                                'and prints as its class name: with a variable, '
+                                'macro or routine called `%s` the end of input '
+                                '(or an operator) is taken for that symbol'
+                                % ('/'.join(bad), bad[0].lower() if bad else ''),
+                                line=c.lineno)
+    R.note('symbol-table accesses keyed by token text: %d' % n_sites)
